@@ -5,6 +5,7 @@ WORDS = ['alpha', 'beta', 'gamma', 'delta', 'eta', 'new', 'old', 'item', 'the', 
          '&amp;amp;', '&lt;b&gt;', 'café', 'naïve', '☃', 'A&amp;B', '~EMPTY~', 'Link:', 'SPACER', '&quot;q&quot;', "it's",
          'e\u0301cole', '\u2126hm', 'x\u0307\u0323', '\u1100\u1161', '\U0001F600']
 INLINE = ['b', 'i', 'em', 'span', 'strong', 'code', 'u', 'small']
+CONTAINERS = ['div', 'blockquote', 'section', 'article', 'header', 'footer', 'main', 'aside']
 BLOCK = ['p', 'div', 'h1', 'h2', 'h3', 'blockquote', 'section', 'article', 'pre', 'header', 'footer']
 HREFS = ['/a', '/b', 'http://x.test/1', 'http://x.test/2?q=1&amp;r=2', '#frag', 'http://web.archive.org/web/20190101000000/http://x.test/',
          'http://s.test/p;jsessionid=ABC123', 'mailto:a@b.c']
@@ -19,20 +20,22 @@ class Gen:
     def words(self, lo=1, hi=4):
         return ' '.join(self.r.choice(WORDS) for _ in range(self.r.randint(lo, hi)))
 
-    def inline(self, depth=0):
+    def inline(self, depth=0, in_a=False):
         r = self.r
         k = r.random()
         if k < 0.55 or depth > 2:
             return self.words()
         if k < 0.72:
-            return '<%s>%s</%s>' % ((t := r.choice(INLINE)), self.inline(depth + 1), t)
+            return '<%s>%s</%s>' % ((t := r.choice(INLINE)), self.inline(depth + 1, in_a), t)
         if k < 0.84:
-            return '<a href="%s">%s</a>' % (r.choice(HREFS), self.inline(depth + 1) if r.random() < 0.8 else '')
+            if in_a:
+                return self.words()
+            return '<a href="%s">%s</a>' % (r.choice(HREFS), self.inline(depth + 1, True) if r.random() < 0.8 else '')
         if k < 0.90:
             return '<img src="%s" alt="%s">' % (r.choice(IMGS), r.choice(WORDS))
         if k < 0.95:
             return '<br>' + (' ' if r.random() < 0.5 else '') + self.words(1, 2)
-        if k < 0.975 and self.rich:
+        if k < 0.975 and self.rich and not in_a:
             return r.choice(['<script>var a = "<b>x</b>";</script>', '<style>p > a { color: red }</style>',
                              '<svg width="4"><circle r="2"></circle></svg>', '<select><option>one</option><option>two</option></select>',
                              '<input type="text" value="v">', '<textarea>t &lt; u</textarea>', '<button>go</button>'])
@@ -58,7 +61,7 @@ class Gen:
                            for _ in range(r.randint(1, 2)))
             return '<table><tbody>%s</tbody></table>' % rows
         if k < 0.85:
-            t = r.choice(BLOCK)
+            t = r.choice(CONTAINERS)
             return '<%s>%s</%s>' % (t, ''.join(self.block(depth + 1) for _ in range(r.randint(1, 2))), t)
         if k < 0.93:
             return self.inlines()           # text directly in the parent block / body
@@ -105,6 +108,9 @@ class Gen:
             elif k < 0.72 and idxs:        # wrap a text run in an inline element / link
                 i = r.choice(idxs)
                 t = r.choice(INLINE + ['a'])
+                inside_a = ''.join(toks[:i]).count('<a ') > ''.join(toks[:i]).count('</a>')
+                if t == 'a' and inside_a:
+                    t = 'span'
                 toks[i] = ('<a href="%s">%s</a>' % (r.choice(HREFS), toks[i])) if t == 'a' else '<%s>%s</%s>' % (t, toks[i], t)
             elif k < 0.80:                 # change an href / src
                 for i, t in enumerate(toks):
@@ -116,13 +122,29 @@ class Gen:
                 if len(pos) > 2:
                     a = r.randrange(len(pos) - 1)
                     del toks[pos[a]:pos[a + 1]]
-            else:                          # move text into a new heading / list
-                if idxs:
-                    i = r.choice(idxs)
+            else:                          # move text into a new heading / list (only where flow content is allowed)
+                ok = [i for i in idxs if self._flow_allowed(toks, i)]
+                if ok:
+                    i = r.choice(ok)
                     toks[i] = r.choice(['<h2>%s</h2>', '<ul><li>%s</li></ul>', '<div>%s</div>', '<p>%s</p>']) % toks[i]
             if not toks:
                 toks = [self.block()]
         return ''.join(toks)
+
+    @staticmethod
+    def _flow_allowed(toks, i):
+        void = ('br', 'img', 'input', 'meta', 'hr', 'col', 'link')
+        stack = []
+        for t in toks[:i]:
+            if t.startswith('</'):
+                if stack:
+                    stack.pop()
+            elif t.startswith('<') and not t.startswith('<!'):
+                name = t[1:].split()[0].strip('<>/').lower()
+                if name not in void and not t.endswith('/>'):
+                    stack.append(name)
+        flow = set(CONTAINERS) | {'li', 'td', 'th', 'form', 'body'}
+        return not stack or stack[-1] in flow
 
     @staticmethod
     def _top_level_positions(toks):
